@@ -35,7 +35,9 @@ MIRRORED = [('mitxgraders/helpers/calc/mathfuncs.py', '*'),
             ('mitxgraders/helpers/calc/expressions.py', 'MathExpression.validate_function_call'),
             ('mitxgraders/helpers/calc/expressions.py', 'MathExpression.eval_node'),
             ('mitxgraders/helpers/calc/expressions.py', 'handle_np_floating_errors'),
-            ('mitxgraders/helpers/get_number_of_args.py', 'get_number_of_args')]
+            ('mitxgraders/helpers/get_number_of_args.py', 'get_number_of_args'),
+            ('mitxgraders/formulagrader/matrixgrader.py', 'MatrixGrader.check_response'),
+            ('mitxgraders/helpers/calc/math_array.py', 'MathArray.__pow__')]
 REFUTED = []
 TRUSTED = [
     'translator translate/mathfuncs.py (Python ast -> Gallina: derived functions over a record of numpy primitives, tables, '
@@ -861,18 +863,54 @@ PERTURBERS = [
     ('matrix', 'arccosh(0.5)*[[1,0],[0,1]]'), ('matrix', '[[1,2],[3,4]'), ('matrix', 'foo'), ('matrix', '[[1,0],[0,1]]/0'),
     ('matrix', '[1,2,3]'), ('matrix', '[[1,2],[3,4]]^0.5'),
     ('formula', 'arccosh(0.5)'), ('formula', '1/0'), ('formula', 'exp(1000)'), ('formula', '(1'), ('formula', 'y'), ('formula', '[1,2]'),
-    ('formula', 'sin(1,2)'), ('formula', '2'), ('formula', '1'),
+    ('formula', 'sin(1,2)'), ('formula', '2'), ('formula', '1'), ('numerical', 'arccosh(0.5)'), ('numerical', '1'),
+    ('formula_arrays', '[1,2]'), ('formula_arrays', 'arccosh(0.5)*[1,2]'),
+    ('matrix[suppress=True,shape_errors=True,is_raised=True,msg_detail=type,answer=matrix]', '[[3,3],[5,5]]^-1'),
+    ('matrix[suppress=True,shape_errors=True,is_raised=True,msg_detail=type,answer=matrix]', '[1,2]+[1,2,3]'),
+    ('matrix[suppress=True,shape_errors=True,is_raised=True,msg_detail=type,answer=matrix]', 'sin([1,2])'),
+    ('matrix[suppress=True,shape_errors=True,is_raised=True,msg_detail=type,answer=matrix]', 'arccosh(0.5)'),
+    ('matrix[suppress=True,shape_errors=False,is_raised=False,msg_detail=None,answer=scalar]', '[1,2]'),
+    ('matrix[suppress=False,shape_errors=False,is_raised=False,msg_detail=shape,answer=matrix]', '[1,2]+[1,2,3]'),
+    ('matrix[suppress=False,shape_errors=False,is_raised=False,msg_detail=shape,answer=matrix]', '[[1,2],[3,4]]^-1'),
+    ('matrix[suppress=False,shape_errors=True,is_raised=True,msg_detail=None,answer=scalar]', '[[1,2],[2,4]]^-1'),
 ]
+HISTORY_CHANNELS = ['evaluator', 'formula', 'numerical', 'matrix',
+                    'matrix[suppress=True,shape_errors=True,is_raised=True,msg_detail=type,answer=matrix]',
+                    'matrix[suppress=False,shape_errors=False,is_raised=False,msg_detail=shape,answer=scalar]']
 PROBES = ['arccosh(0.5)', 'arcsech(2)', 'arcsec(0.5)', 'arccsc(0.5)', 'arccoth(0.5)', 'arccosh(-2)', 'arcsin(1)', 'arccos(-1)', 'arccosh(1)',
           'arctanh(1)', 'arccoth(1)', 'ln(0)', 'log10(0)', 'log2(0)', '1/0', '0^-1', 'cot(0)', 'csc(0)', 'coth(0)', 'arcsec(0)', 'exp(1000)',
           'cosh(1000)', 'sinh(-1000)', '10^400', 'sech(1000)', 'arctan(i)', 'sqrt(-4)', 'ln(-1)', 'tan(pi/2)', 'exp(-1000)',
           'norm([3e200,4e200])', 'det([[1e200,0],[0,1e200]])']
 
 
+MATRIX_OPTION_GRID = [(sm, se, ir, md, ans) for sm in (False, True) for se in (True, False) for ir in (True, False)
+                      for md in ('type', 'shape', None) for ans in ('matrix', 'scalar')]
+
+
+def grader_configs():
+    """name -> zero-argument constructor: the Formula / Numerical graders and MatrixGrader under every combination of
+    suppress_matrix_messages / shape_errors / answer_shape_mismatch (is_raised, msg_detail), matrix and scalar answers"""
+    from mitxgraders import FormulaGrader, NumericalGrader, MatrixGrader
+    cfg = {'formula': lambda: FormulaGrader(answers='1'),
+           'numerical': lambda: NumericalGrader(answers='1'),
+           'formula_arrays': lambda: FormulaGrader(answers='1', max_array_dim=2),
+           'matrix': lambda: MatrixGrader(answers='[[1,0],[0,1]]', max_array_dim=2)}
+    for sm, se, ir, md, ans in MATRIX_OPTION_GRID:
+        name = 'matrix[suppress=%s,shape_errors=%s,is_raised=%s,msg_detail=%s,answer=%s]' % (sm, se, ir, md, ans)
+        cfg[name] = (lambda sm=sm, se=se, ir=ir, md=md, ans=ans: MatrixGrader(
+            answers='[[1,0],[0,1]]' if ans == 'matrix' else '1', max_array_dim=2, suppress_matrix_messages=sm, shape_errors=se,
+            answer_shape_mismatch={'is_raised': ir, 'msg_detail': md}))
+    return cfg
+
+
+class _Graders(dict):
+    def __missing__(self, name):
+        self[name] = grader_configs()[name]()
+        return self[name]
+
+
 def _graders():
-    from mitxgraders import FormulaGrader, MatrixGrader
-    return {'formula': FormulaGrader(answers='1'),
-            'matrix': MatrixGrader(answers='[[1,0],[0,1]]', max_array_dim=2)}
+    return _Graders()
 
 
 def history_step(channel, text, graders):
@@ -903,9 +941,9 @@ def run_history(ctx, res, rng):
     graders = _graders()
     O.fp_restore()
     fresh = {}
-    for ch in ('evaluator', 'formula', 'matrix'):
+    for ch in HISTORY_CHANNELS:
         for p in PROBES:
-            if ch == 'matrix' and '[' in p:
+            if ch.startswith('matrix') and '[' in p:
                 continue
             fresh[(ch, p)] = history_step(ch, p, graders)
             leak = O.fp_check('fresh-state probe %s(%r)' % (ch, p))
@@ -917,6 +955,18 @@ def run_history(ctx, res, rng):
             if o[0] == 'ret' and o[1] == 'nan':
                 res.witnesses.append({'key': 'history:fresh:%s:%s' % (ch, p), 'kind': 'history', 'history': [], 'probe': [ch, p],
                                       'what': 'probe evaluates to nan in a fresh state'})
+    # the same probes in a FRESH interpreter: whatever this process did before (every stream above) must not matter
+    sub = fresh_interpreter_outcomes()
+    if sub is None:
+        res.notes.append('fresh-interpreter probe run failed to start; in-process fresh state used alone')
+    else:
+        for (ch, p), want in sorted(fresh.items()):
+            got = tuple(sub.get('%s|%s' % (ch, p), ()))
+            if got != tuple(want):
+                res.witnesses.append({'key': 'history:process:%s:%s' % (ch, p), 'kind': 'history-process', 'probe': [ch, p],
+                                      'fresh_interpreter': repr(got), 'this_process': repr(want),
+                                      'what': 'the probe %s(%r) gives %r in this process (after the streams of this run) and %r in a '
+                                              'fresh interpreter' % (ch, p, want, got)})
     thorough = ctx['tier'] == 'thorough' or ctx['escalate']
     sequences = [[p] for p in PERTURBERS]
     for _ in range(60 if thorough else 15):
@@ -956,6 +1006,128 @@ def run_history(ctx, res, rng):
             del O.FP_LEAKS[:]
     res.distribution['history_sequences'] = len(sequences)
     res.distribution['history_probes'] = n
+
+
+# ------------------------------------------------------------------------------------------------
+# out-of-domain calls x grader families x grader options: a domain / overflow / division / argument-count error of a
+# built-in function reaches the student as a student-facing error under EVERY configuration; only the matrix-message
+# family (shape mismatch, input type, argument shape, MathArray errors) is what the MatrixGrader options may silence
+# ------------------------------------------------------------------------------------------------
+DOMAIN_FAMILY = ('FunctionEvalError', 'CalcZeroDivisionError', 'CalcOverflowError', 'ArgumentError')
+
+
+def literal(a):
+    """argument -> formula text with the same value"""
+    def num(x):
+        t = repr(float(x))
+        return '(%s)' % t if t.startswith('-') else t
+    if a[0] == 'r':
+        return num(a[1])
+    return '(%s+%s*i)' % (num(a[1]), num(a[2]))
+
+
+def domain_probe_texts(cases_obs, rng, limit):
+    """formula texts of calls that raised a domain-family error in the main stream (one per function and class first, then a
+    seeded sample), plus the fixed probes"""
+    by_key, rest = {}, []
+    for c, obs in cases_obs:
+        if obs['status'] != 'exc' or obs['exc'] not in DOMAIN_FAMILY or not all(O.is_scalar(a) for a in c['args']):
+            continue
+        if any(not math.isfinite(v) for a in c['args'] for v in a[1:]):
+            continue
+        text = '%s(%s)' % (c['fname'], ','.join(literal(a) for a in c['args']))
+        key = (c['fname'], obs['exc'])
+        if key not in by_key:
+            by_key[key] = text
+        else:
+            rest.append(text)
+    texts = [by_key[k] for k in sorted(by_key)]
+    rng.shuffle(rest)
+    texts += rest[:max(0, limit - len(texts))]
+    fixed = [p for p in PROBES] + ['arctan2(0,0)', 'floor(2+i)', 'max(1,i)', 'min(i,2,3)', 'sin(1,2)', 'kronecker(1)', 'cot(0)*2',
+                                   'arcsech(2)+1', '2^arccosh(0.5)', 'sqrt(arccosh(0.5))']
+    out, seen = [], set()
+    for t in fixed + texts:
+        if t not in seen:
+            seen.add(t)
+            out.append(t)
+    return out
+
+
+NESTINGS = ['%s', '1+%s', '[%s,1]', '%s*[[1,0],[0,1]]', '[[1,%s],[0,1]]', 'abs(%s)', '[[1,0],[0,1]]^2*%s']
+
+
+def run_grader_options(ctx, res, cases_obs, rng):
+    thorough = ctx['tier'] == 'thorough' or ctx['escalate']
+    graders = _graders()
+    names = sorted(grader_configs())
+    texts = domain_probe_texts(cases_obs, rng, 150 if thorough else 45)
+    n = 0
+    for ti, base in enumerate(texts):
+        for ni, nest in enumerate(NESTINGS):
+            if not thorough and ni and (ti + ni) % 3:
+                continue
+            text = nest % base
+            ev = O.run_impl('matrix', None, [], formula=text, max_array_dim=2)
+            if ev['status'] != 'exc' or ev['exc'] not in DOMAIN_FAMILY:
+                continue          # not (or no longer) a domain-family error as a bare expression: nothing is demanded here
+            for gi, gname in enumerate(names):
+                if not thorough and not gname.startswith(('formula', 'numerical')) and gname != 'matrix' and (ti + ni + gi) % 4:
+                    continue
+                out = history_step(gname, text, graders)
+                leak = O.fp_check('%s(None, %r)' % (gname, text))
+                res.oracle_evals += 1
+                n += 1
+                what = None
+                if leak:
+                    what = 'the call left the numpy floating-point error state changed'
+                elif out[0] != 'exc':
+                    what = ('%s raises %s as an expression, but this grader returned a grading result (ok=%r) instead of a '
+                            'student-facing error' % (text, ev['exc'], out[1]))
+                elif not out[2]:
+                    what = '%s: the grader raised the non-student-facing %s' % (text, out[1])
+                if what:
+                    res.witnesses.append({'key': 'grader-option:%s:%s' % (gname, text), 'kind': 'grader-option', 'grader': gname,
+                                          'input': text, 'evaluator': ev['exc'], 'observed': repr(out), 'what': what})
+    res.distribution['grader_option_calls'] = n
+    res.distribution['grader_option_probe_texts'] = len(texts)
+
+
+def probe_outcomes():
+    """every probe through every history channel, in the current process state"""
+    graders = _graders()
+    out = {}
+    for ch in HISTORY_CHANNELS:
+        for p in PROBES:
+            if ch.startswith('matrix') and '[' in p:
+                continue
+            out['%s|%s' % (ch, p)] = list(history_step(ch, p, graders))
+    return out
+
+
+def _fresh_main():
+    import json
+    import sys
+    sys.stdout.write('@@FRESH ' + json.dumps(probe_outcomes()) + '\n')
+
+
+def fresh_interpreter_outcomes():
+    import json
+    import os
+    import subprocess
+    import sys
+    env = dict(os.environ)
+    env['PYTHONPATH'] = '%s:%s' % (core.REPO, core.VERIF)
+    env['VERIF_REPO'] = core.REPO
+    try:
+        p = subprocess.run([sys.executable, '-B', '-c', 'from harness.props import c15; c15._fresh_main()'], env=env, cwd=core.VERIF,
+                           stdout=subprocess.PIPE, stderr=subprocess.DEVNULL, text=True, timeout=120)
+    except Exception:      # noqa
+        return None
+    for line in p.stdout.splitlines():
+        if line.startswith('@@FRESH '):
+            return json.loads(line[8:])
+    return None
 
 
 def hash_slot(a, b):
@@ -1037,7 +1209,7 @@ def run(ctx):
     cases = build_cases(ctx)
     thorough = ctx['tier'] == 'thorough' or ctx['escalate']
     pi_q = qlit(math.pi)
-    terms, metas, goals = [], [], []
+    terms, metas, goals, cases_obs = [], [], [], []
     dist = {}
     seen = set()
     for c in cases:
@@ -1047,6 +1219,7 @@ def run(ctx):
         seen.add(k)
         obs = O.run_impl(c['table'], c['fname'], c['args'])
         res.oracle_evals += 1
+        cases_obs.append((c, obs))
         what = O.judge(c, obs)
         dist_key = '%s/%s' % (c['stream'], obs['status'] if obs['status'] == 'ret' else obs['exc'])
         dist[dist_key] = dist.get(dist_key, 0) + 1
@@ -1100,6 +1273,7 @@ def run(ctx):
             res.witnesses.append({'key': 'fp:' + label, 'kind': 'fp-error-state-changed', 'label': label,
                                   'what': 'numpy error state %r -> %r after %s' % (before, after, label)})
     del O.FP_LEAKS[:]
+    run_grader_options(ctx, res, cases_obs, random.Random(1000003 * ctx['seed'] + 1516))
     run_history(ctx, res, random.Random(1000003 * ctx['seed'] + 1515))
     fp_end = O.fp_state()
     fprows = ['(%s, %s)' % (listlit(['(%s, %s)' % (coq_string(k), coq_string(v)) for k, v in sorted(st[0].items())]),
@@ -1122,7 +1296,7 @@ def run(ctx):
     # the driver files the first few witnesses: wrong values / nan first, then leaked state, then wrong error classes
     def rank(w):
         t = w.get('what', '')
-        if 'returned' in t or 'nan' in t or w.get('kind') == 'history':
+        if 'returned' in t or 'nan' in t or w.get('kind') in ('history', 'history-process', 'grader-option'):
             return 0
         if w.get('kind') == 'fp-error-state-changed':
             return 1
@@ -1191,6 +1365,18 @@ def replay(w):
             return bad, 'after %r the probe %s(%r) gives %r; fresh state: %r' % (w['history'], ch, p, got, want)
         finally:
             O.fp_restore()
+    if kind == 'grader-option':
+        O.fp_capture_baseline()
+        out = history_step(w['grader'], w['input'], _graders())
+        ev = O.run_impl('matrix', None, [], formula=w['input'], max_array_dim=2)
+        bad = ev['status'] == 'exc' and ev['exc'] in DOMAIN_FAMILY and (out[0] != 'exc' or not out[2])
+        return bad, '%s(None, %r) -> %r; as an expression: %s' % (w['grader'], w['input'], out, ev.get('exc', ev.get('value')))
+    if kind == 'history-process':
+        O.fp_capture_baseline()
+        ch, p = w['probe']
+        here = list(history_step(ch, p, _graders()))
+        sub = fresh_interpreter_outcomes() or {}
+        return here != sub.get('%s|%s' % (ch, p)), 'probe %s(%r): %r here, %r in a fresh interpreter (the history of the original run is not reproduced by a replay)' % (ch, p, here, sub.get('%s|%s' % (ch, p)))
     if kind == 'user-function':
         res = core.Result()
         O.fp_capture_baseline()
